@@ -1,18 +1,20 @@
 #!/usr/bin/env python3
-"""Mini-Rust -> Gallina translator for the leaf integer arithmetic of /repo (C16 / C19).
+"""Mini-Rust -> Gallina translator for the leaf integer arithmetic of /repo (C16 / C19 / C11).
 
    python3 tools/gen_arith.py [REPO] [DEST_DIR]
 
-Reads the Rust SOURCE of a fixed list of small pure functions (TARGETS below: which function,
-in which file, under which impl / macro), parses each body with a hand-written tokenizer and
-recursive-descent parser, and writes
+Reads the Rust SOURCE of a fixed list of small functions / fragments (TARGETS below: which
+function, in which file, under which impl / macro, which kind of extraction), parses each body with
+a hand-written tokenizer and recursive-descent parser, and writes
     coq/theories/Gen/Arith.v        usize arithmetic, explicit machine arithmetic (Model/U64.v)
     coq/theories/Gen/ArithNumeric.v the from_usize macro family (Model/Numeric.v vocabulary)
-Proofs/GenArithP.v and Proofs/GenNumericP.v prove every generated definition equal to the
-hand-written model function the property theorems are about.  Nothing here knows what the
-functions are SUPPOSED to compute: a function whose body leaves the supported subset is NOT
-emitted (a comment says why), so the equivalence lemma that mentions it stops compiling.
-Supported subset and translation scheme: notes/GEN.md.  Python stdlib only."""
+Proofs/GenArithP.v, GenArithViewsP.v (C16), GenNumericP.v (C19) and GenMatrixP.v (C11) prove every
+generated definition equal to the hand-written model function the property theorems are about.
+Nothing here knows what the functions are SUPPOSED to compute: a function whose body leaves the
+supported subset is NOT emitted (a comment says why), so the equivalence lemma that mentions it
+stops compiling.  Supported subset, translation scheme, extraction kinds (fn / for / closure /
+from_fn / tryfold / for_mut / retain / positions): notes/GEN.md.  Tests: tools/test_gen_arith.py
+(snippet table + differential self-test against the compiled crate).  Python stdlib only."""
 import os, re, sys
 
 HERE = os.path.dirname(os.path.abspath(__file__))
@@ -342,13 +344,23 @@ class Parser:
     def unary(self, nostruct):
         if self.kind() == "p" and self.peek() in ("-", "!", "*", "&"):
             op = self.next().text
-            if op == "&":
-                self.accept("mut")
+            if op == "&" and self.accept("mut"):
+                op = "&mut"
             return ("un", op, self.unary(nostruct))
         if self.kind() == "p" and self.peek() == "&&":
             self.next()
             return ("un", "&", ("un", "&", self.unary(nostruct)))
         return self.postfix(nostruct)
+
+    def skip_generics(self):
+        self.expect("<")
+        d = 1
+        while d:
+            x = self.next().text
+            if x == "<":
+                d += 1
+            elif x == ">":
+                d -= 1
 
     def args(self):
         self.expect("(")
@@ -366,7 +378,8 @@ class Parser:
                     e = ("field", e, self.next().text); continue
                 name = self.ident()
                 if self.peek() == "::":
-                    raise Unsupported("turbofish")
+                    self.next(); self.skip_generics()
+                    name += "::<>"
                 if self.peek() == "(":
                     e = ("mcall", e, name, self.args())
                 else:
@@ -392,7 +405,11 @@ class Parser:
                 self.next()
                 items, trailing = [], False
                 while not self.accept(")"):
-                    items.append(self.expr())
+                    it = self.expr()
+                    if self.peek() == ".." and self.kind() == "p":
+                        self.next()
+                        it = ("rangeexpr", it, self.expr())
+                    items.append(it)
                     trailing = self.accept(",")
                 if not items:
                     return ("unit",)
@@ -446,9 +463,24 @@ class Parser:
         while self.peek() == "::":
             self.next()
             if self.peek() == "<":
-                raise Unsupported("turbofish")
+                self.skip_generics()
+                segs[-1] += "::<>"
+                continue
             segs.append(self.ident())
         if self.peek() == "!" and self.kind() == "p" and self.peek(1) in ("(", "[", "{"):
+            if segs == ["assert"] and self.peek(1) == "(":
+                # assert!(cond [, message, args..]): the message is only built on the failing
+                # path, which panics anyway (all panics are one outcome)
+                self.next(); self.next()
+                cond = self.expr()
+                depth = 1
+                while depth:
+                    t = self.next()
+                    if t.kind == "p" and t.text in "([{":
+                        depth += 1
+                    elif t.kind == "p" and t.text in ")]}":
+                        depth -= 1
+                return ("assert", cond)
             raise Unsupported("macro call %s!" % name)
         if self.peek() == "{" and not nostruct and segs[-1][0].isupper():
             self.next()
@@ -491,7 +523,8 @@ class Parser:
             if self.kind() == "p" and self.peek() in ("=", "+=", "-=", "*="):
                 op = self.next().text
                 rhs = self.expr()
-                self.expect(";")
+                if self.peek() != "}":
+                    self.expect(";")
                 stmts.append(("assign", e, op, rhs)); continue
             if self.accept(";"):
                 stmts.append(("expr", e))
@@ -505,10 +538,13 @@ class Parser:
         """at `fn`: returns dict(name, selfkind, params [(pattern, type)], ret, body)"""
         self.expect("fn")
         name = self.ident()
+        consts = []
         if self.peek() == "<":
             d = 0
             while True:
                 x = self.next().text
+                if x == "const" and self.kind() == "id":
+                    consts.append(self.peek())
                 if x == "<":
                     d += 1
                 elif x == ">":
@@ -534,7 +570,7 @@ class Parser:
         if self.peek() == "where":
             while self.peek() != "{":
                 self.next()
-        return {"name": name, "selfkind": selfkind, "params": params, "ret": ret, "body": self.block()}
+        return {"name": name, "selfkind": selfkind, "params": params, "ret": ret, "body": self.block(), "consts": consts}
 
 
 # ------------------------------------------------------------------ translation (usize backend)
@@ -552,10 +588,35 @@ STRUCTS = {
                    "ignored": []},
     "Matrix": {"decl": "src/matrices/mod.rs", "coq": "gen_matrix", "ctor": "mkGenMatrix", "fields": [("rows", "gm_rows", "usize"), ("columns", "gm_columns", "usize")],
                "ignored": ["data"]},
+    "Slice2D": {"decl": "src/matrices/slices.rs", "coq": "Matrix.slice2d", "ctor": "Matrix.mkSlice2D",
+                "fields": [("rows", "Matrix.s_rows", ("enum", "Slice")), ("columns", "Matrix.s_columns", ("enum", "Slice"))], "ignored": []},
 }
 USIZE_METHODS = {"saturating_add": ("sat_add", 2, "usize"), "saturating_sub": ("sat_sub", 2, "usize"),
                  "checked_add": ("checked_add", 2, ("opt", "usize")), "checked_mul": ("checked_mul", 2, ("opt", "usize")),
                  "min": ("N.min", 2, "usize"), "max": ("N.max", 2, "usize")}
+# free functions that are translation targets themselves and may be called from other targets:
+# last path segment -> (file, kind, fn, generated name, (argument types, how the generated
+# definition takes them), result type)
+SHAPE_T = ("array", ("tuple", ["dim", "usize"]))
+FREE_FNS = {
+    "elements": ("src/tensors/dimensions.rs", "fn", "elements", "gen_elements", ([SHAPE_T], "%s"), "usize"),
+    "compute_strides": ("src/tensors/mod.rs", "from_fn", "compute_strides", "gen_compute_strides", ([SHAPE_T], "%s"), ("array", "usize")),
+    "get_index_direct_unchecked": ("src/tensors/mod.rs", "for", "get_index_direct_unchecked", "gen_get_index_direct_unchecked",
+                                   ([("array", "usize"), ("array", "usize")], "(combine %s %s)"), "usize"),
+}
+# opaque parameter types: a value of the type is represented by its single (pure, total) method
+OPAQUE = {}
+ALIAS_DECL = {"Row": "src/matrices/mod.rs", "Column": "src/matrices/mod.rs"}
+# enums whose `match self { .. }` methods are translated as Coq Fixpoints over a hand-written
+# inductive type: variants in declaration order with their field kinds (usize | range | rec = Box<Self>)
+ENUMS = {
+    "Slice": {"decl": "src/matrices/slices.rs", "coq": "Matrix.slice",
+              "variants": [("All", [], "Matrix.SAll"), ("None", [], "Matrix.SNone"), ("Single", ["usize"], "Matrix.SSingle"),
+                           ("Range", ["range"], "Matrix.SRange"), ("Not", ["rec"], "Matrix.SNot"),
+                           ("And", ["rec", "rec"], "Matrix.SAnd"), ("Or", ["rec", "rec"], "Matrix.SOr")]},
+}
+ITER_ADAPTORS = ("map", "skip", "take", "zip", "enumerate", "rev")
+ITER_CONSUMERS = ("product", "sum", "all", "any", "count")
 CMP = {"<": ("%s <? %s", False), "<=": ("%s <=? %s", False), ">": ("%s <? %s", True), ">=": ("%s <=? %s", True),
        "==": ("%s =? %s", False)}
 
@@ -579,6 +640,12 @@ class FnTr:
         self.abstract = {}         # body mode: array name -> (coq param, element type)
         self.abs_used = []
         self.depth = 0
+        self.thread_base = 0       # variables declared at a depth >= this can be assigned here
+        self.closure_state = None  # state-passing closure: the captured `let mut` variables
+        self.closure_ret = None
+        self.mut_arrays = []       # for_mut mode: the `&mut [T; D]` parameters
+        self.elem_alias = {}       # for_mut mode: array -> (alias variable, depth) of `let x = &mut ARRAY[d]`
+        self.for_mut_end = None
 
     # ---- names
     def fresh(self, base):
@@ -601,11 +668,13 @@ class FnTr:
             return "unit"
         if t[0] == "tuple":
             return ("tuple", [self.ty(x) for x in t[1]])
-        if t[0] == "array":
+        if t[0] in ("array", "slice"):
             return ("array", self.ty(t[1]))
         if t[0] == "named":
             n, a = t[1], t[2]
             n = self.u.aliases.get(n, n)
+            if n in ALIAS_DECL and not self.u.from_text:
+                n = self.u.other_unit(ALIAS_DECL[n]).aliases.get(n, n)   # `type Row = usize;` re-read where it is declared
             if n == "Self" and self.self_ty:
                 n = self.self_ty
             if n == "usize":
@@ -623,6 +692,11 @@ class FnTr:
             if n in STRUCTS:
                 self.u.check_struct(n)
                 return ("struct", n)
+            if n in ENUMS:
+                self.u.check_enum(n)
+                return ("enum", n)
+            if n in OPAQUE:
+                return ("opaque", n)
         raise Unsupported("type %r" % (t,))
 
     def coq_ty(self, t):
@@ -640,6 +714,13 @@ class FnTr:
             return "(%s * %s)" % (self.coq_ty(t[1][0]), self.coq_ty(t[1][1]))
         if t[0] == "struct":
             return STRUCTS[t[1]]["coq"]
+        if t[0] == "array":
+            return "(list %s)" % self.coq_ty(t[1])
+        if t[0] == "enum":
+            return ENUMS[t[1]]["coq"]
+        if t[0] == "opaque":
+            args, ret = OPAQUE[t[1]][1], OPAQUE[t[1]][2]
+            return "(%s)" % " -> ".join([self.coq_ty(a) for a in args] + [self.coq_ty(ret)])
         raise Unsupported("no Coq representation for type %r" % (t,))
 
     # ---- monadic plumbing
@@ -688,6 +769,10 @@ class FnTr:
                 return k("usize_max", "usize")
             raise Unsupported("path %s" % "::".join(segs))
         if kind == "un":
+            if e[1] == "&mut" and e[2][0] == "index" and e[2][1] == ("field", ("path", ["self"]), "data") and self.self_ty == "Matrix":
+                return self.tr(e[2], env, k, tail, pure)      # a stored value is its position
+            if e[1] == "&mut":
+                raise Unsupported("`&mut` borrow (only `let x = &mut ARRAY[d];` in a loop that writes arrays)")
             if e[1] in ("&", "*"):
                 return self.tr(e[2], env, k, tail, pure)
             if e[1] == "!":
@@ -792,6 +877,18 @@ class FnTr:
                     fn = "N.min" if segs[-1] == "min" else "N.max"
                     return self.tr_list(e[2], env, lambda ts, tys: [self.want(x, "usize") for x in tys] and
                                         k("%s %s %s" % (fn, atom(ts[0]), atom(ts[1])), "usize"), pure)
+                if segs[-1] in FREE_FNS and self.self_ty is None:
+                    if pure:
+                        raise Impure()
+                    rel, kind, fname, coq, argform, rty = FREE_FNS[segs[-1]]
+                    self.u.free_fn(rel, kind, fname, coq)
+                    def kf(ts, tys):
+                        if len(ts) != len(argform[0]):
+                            raise Unsupported("call of %s with %d arguments" % (fname, len(ts)))
+                        for x, w in zip(tys, argform[0]):
+                            self.want(x, w)
+                        return self.bind("%s md %s" % (coq, argform[1] % tuple(atom(x) for x in ts)), rty, k)
+                    return self.tr_list(e[2], env, kf, pure)
                 if len(segs) == 2 and (segs[0] in STRUCTS or segs[0] == "Self"):
                     if pure:
                         raise Impure()
@@ -804,8 +901,16 @@ class FnTr:
             raise Unsupported("call of %r" % (f,))
         if kind == "mcall":
             recv, name, args = e[1], e[2], e[3]
-            if name in ("clone", "into", "iter", "to_owned"):
-                raise Unsupported("method .%s()" % name)
+            if name in ITER_CONSUMERS and self.is_iter(recv):
+                return self.tr_consumer(recv, name, args, env, k, pure)
+            if name == "len" and not args:
+                def kl(t, ty):
+                    if not (isinstance(ty, tuple) and ty[0] == "array"):
+                        raise Unsupported(".len() of a value of type %r" % (ty,))
+                    return k("N.of_nat (length %s)" % atom(t), "usize")
+                return self.tr(recv, env, kl, False, pure)
+            if name in ("clone", "into", "iter", "to_owned") or name in ITER_ADAPTORS:
+                raise Unsupported("method .%s() outside an iterator chain that ends in %s" % (name, " / ".join(sorted(ITER_CONSUMERS))))
             def km(ts, tys):
                 rty = tys[0]
                 if rty == "usize" and name in USIZE_METHODS:
@@ -815,6 +920,20 @@ class FnTr:
                     for x in tys:
                         self.want(x, "usize")
                     return k("%s %s" % (fn, " ".join(atom(x) for x in ts)), ret)
+                if isinstance(rty, tuple) and rty[0] == "enum":
+                    cname, cret, cn = self.u.enum_fn(rty[1], name)      # a pure Fixpoint
+                    if cn != len(ts):
+                        raise Unsupported("call of %s with %d arguments" % (cname, len(ts) - 1))
+                    for x in tys[1:]:
+                        self.want(x, "usize")
+                    return k("%s %s" % (cname, " ".join(atom(x) for x in ts)), cret)
+                if rty == "range" and name == "contains" and len(ts) == 2:
+                    self.want(tys[1], "usize")
+                    return k("((fst %s <=? %s) && (%s <? snd %s))" % (atom(ts[0]), atom(ts[1]), atom(ts[1]), atom(ts[0])), "bool")
+                if isinstance(rty, tuple) and rty[0] == "opaque" and OPAQUE[rty[1]][0] == name and len(ts) == 1 + len(OPAQUE[rty[1]][1]):
+                    for x, w in zip(tys[1:], OPAQUE[rty[1]][1]):
+                        self.want(x, w)
+                    return k("%s %s" % (ts[0], " ".join(atom(x) for x in ts[1:])), OPAQUE[rty[1]][2])
                 if isinstance(rty, tuple) and rty[0] == "struct":
                     if pure:
                         raise Impure()
@@ -872,6 +991,94 @@ class FnTr:
             raise Unsupported("closure")
         raise Unsupported("expression %s" % kind)
 
+    # ---- iterator chains over arrays / slices / ranges: lists, closures must be panic-free
+    def is_iter(self, e):
+        return (e[0] == "mcall" and (e[2] in ("iter", "into_iter") or (e[2] in ITER_ADAPTORS and self.is_iter(e[1])))) \
+            or e[0] == "rangeexpr"
+
+    def closure_fun(self, c, ety, env, what):
+        """a panic-free closure |pattern| body over elements of type ety -> (Coq fun, result type)"""
+        if c[0] != "closure" or len(c[1]) != 1:
+            raise Unsupported("%s expects a closure of one parameter" % what)
+        box = []
+        def body(env2):
+            try:
+                t, ty = self.pure(c[2], env2)
+            except Impure:
+                raise Unsupported("the closure given to %s can panic (+ - * or a call inside an iterator chain)" % what)
+            box.append(ty)
+            return t
+        p = c[1][0]
+        self.depth += 1
+        if p[0] == "pid":
+            v = self.fresh(p[1])
+            env2 = dict(env); env2[p[1]] = (v, ety, self.depth)
+            text = "fun %s => %s" % (v, body(env2))
+        else:
+            v = self.fresh("x")
+            text = "fun %s => %s" % (v, self.bind_pattern(p, v, ety, env, body))
+        self.depth -= 1
+        return "(%s)" % text, box[0]
+
+    def tr_iter(self, e, env, k):
+        """k(list term, element type) for an iterator-valued expression"""
+        if e[0] == "rangeexpr":
+            return self.tr(e[1], env, lambda ta, tya: self.want(tya, "usize") or self.tr(e[2], env, lambda tb, tyb:
+                           self.want(tyb, "usize") or k("gen_range %s %s" % (atom(ta), atom(tb)), "usize")))
+        if e[0] != "mcall":
+            raise Unsupported("not an iterator expression")
+        recv, name, args = e[1], e[2], e[3]
+        if name in ("iter", "into_iter") and not args:
+            def ks(t, ty):
+                if not (isinstance(ty, tuple) and ty[0] == "array"):
+                    raise Unsupported(".%s() on a value of type %r" % (name, ty))
+                return k(t, ty[1])
+            if recv[0] == "rangeexpr":
+                return self.tr_iter(recv, env, k)
+            return self.tr(recv, env, ks)
+        if name == "map" and len(args) == 1:
+            def km(t, ety):
+                f, rty = self.closure_fun(args[0], ety, env, ".map")
+                return k("map %s %s" % (f, atom(t)), rty)
+            return self.tr_iter(recv, env, km)
+        if name in ("skip", "take") and len(args) == 1:
+            fn = "skipn" if name == "skip" else "firstn"
+            return self.tr_iter(recv, env, lambda t, ety: self.tr(args[0], env, lambda tn, tyn:
+                                self.want(tyn, "usize") or k("%s (N.to_nat %s) %s" % (fn, atom(tn), atom(t)), ety)))
+        if name == "zip" and len(args) == 1:
+            def kz(t, ety):
+                def k2(t2, ety2):
+                    return k("combine %s %s" % (atom(t), atom(t2)), ("tuple", [ety, ety2]))
+                if self.is_iter(args[0]):
+                    return self.tr_iter(args[0], env, k2)
+                return self.tr(args[0], env, lambda t2, ty2: k2(t2, ty2[1]) if isinstance(ty2, tuple) and ty2[0] == "array"
+                               else self.unsupported(".zip with a value of type %r" % (ty2,)))
+            return self.tr_iter(recv, env, kz)
+        if name == "enumerate" and not args:
+            return self.tr_iter(recv, env, lambda t, ety: k("gen_enumerate %s" % atom(t), ("tuple", ["usize", ety])))
+        if name == "rev" and not args:
+            return self.tr_iter(recv, env, lambda t, ety: k("rev %s" % atom(t), ety))
+        raise Unsupported("iterator adaptor .%s" % name)
+
+    def unsupported(self, msg):
+        raise Unsupported(msg)
+
+    def tr_consumer(self, recv, name, args, env, k, pure):
+        if pure and name in ("product", "sum"):
+            raise Impure()
+        def kc(t, ety):
+            if name in ("product", "sum") and not args:
+                self.want(ety, "usize")
+                return self.bind("gen_%s md %s" % (name, atom(t)), "usize", k)
+            if name in ("all", "any") and len(args) == 1:
+                f, rty = self.closure_fun(args[0], ety, env, "." + name)
+                self.want(rty, "bool")
+                return k("%s %s %s" % ("forallb" if name == "all" else "existsb", f, atom(t)), "bool")
+            if name == "count" and not args:
+                return k("N.of_nat (length %s)" % atom(t), "usize")
+            raise Unsupported("iterator consumer .%s" % name)
+        return self.tr_iter(recv, env, kc)
+
     def want(self, ty, expected):
         """light type check (None = unknown is accepted); returns None so it can sit in an `or`"""
         if ty is not None and ty != expected and not (expected == "usize" and ty == "dim" and False):
@@ -892,8 +1099,21 @@ class FnTr:
             return self.tr(es[i], env, lambda t, ty: go(i + 1, ts + [t], tys + [ty]), False, pure)
         return go(0, [], [])
 
-    def tr_match(self, ts, tys, arms, env, k, tail):
+    def tr_match(self, ts, tys, arms, env, k, tail, stmt_rest=None):
+        """stmt_rest: the match is a statement; every arm is followed by stmt_rest(env') where
+        env' carries the assignments the arm made to outer variables"""
         pats = [p for p, _ in arms]
+        d0 = self.depth
+        def rest_at_d0(env_):
+            saved, self.depth = self.depth, d0
+            try:
+                return stmt_rest(env_)
+            finally:
+                self.depth = saved
+        def arm(body, env2):
+            if stmt_rest is not None:
+                return self.stmt_expr(body, env2, env, rest_at_d0)
+            return self.tr(body, env2, k, tail)
         if tys == "bool":
             d = {}
             for p, body in arms:
@@ -905,7 +1125,7 @@ class FnTr:
                     raise Unsupported("bool match pattern %r" % (p,))
             if sorted(d) != [False, True] or len(arms) != 2:
                 raise Unsupported("bool match must have exactly the arms true / false")
-            return "if %s then %s else %s" % (ts, self.tr(d[True], env, k, tail), self.tr(d[False], env, k, tail))
+            return "if %s then %s else %s" % (ts, arm(d[True], env), arm(d[False], env))
         if isinstance(tys, tuple) and tys[0] == "opt":
             none = some = None
             for p, body in arms:
@@ -919,11 +1139,10 @@ class FnTr:
                 raise Unsupported("Option match must have exactly the arms None / Some(x)")
             env2 = dict(env)
             v = self.fresh(some[0][1] if some[0][0] == "pid" else "tmp")
+            self.depth += 1
             if some[0][0] == "pid":
                 env2[some[0][1]] = (v, tys[1], self.depth)
-            self.depth += 1
-            s = "match %s with None => %s | Some %s => %s end" % (
-                ts, self.tr(none, env, k, tail), v, self.tr(some[1], env2, k, tail))
+            s = "match %s with None => %s | Some %s => %s end" % (ts, arm(none, env), v, arm(some[1], env2))
             self.depth -= 1
             return s
         raise Unsupported("match on a value of type %r" % (tys,))
@@ -933,8 +1152,10 @@ class FnTr:
         """top=True: the body of the translated function / loop body; k is not used then, the
         block ends in body_end (value of the tail expression, updated self, or next state)"""
         stmts, tl = blk[1], blk[2]
+        saved_base = self.thread_base
         if not top:
             self.depth += 1
+            self.thread_base = self.depth
         def done(env_):
             if top:
                 if tl is None:
@@ -943,10 +1164,65 @@ class FnTr:
             if tl is None:
                 return k("tt", "unit")
             return self.tr(tl, env_, k, tail, pure)
-        out = self.tr_stmts(stmts, 0, dict(env), done, pure)
-        if not top:
-            self.depth -= 1
+        saved_depth = self.depth - (0 if top else 1)
+        try:
+            return self.tr_stmts(stmts, 0, dict(env), done, pure)
+        finally:
+            self.depth = saved_depth
+            self.thread_base = saved_base
+
+    # ---- statement-position if / match / block: the statements that follow are continued in
+    # every branch, with the assignments the branch made to variables of enclosing scopes
+    def merge(self, outer, inner):
+        out = {}
+        for n, ent in outer.items():
+            if isinstance(n, tuple):
+                continue
+            out[n] = inner.get(("#", n, ent[2]), ent)
+        for key, ent in inner.items():
+            if isinstance(key, tuple) and key[2] <= self.depth:
+                out[key] = ent
         return out
+
+    def stmt_block(self, blk, env, outer, rest):
+        stmts, tl = list(blk[1]), blk[2]
+        if tl is not None and tl[0] in ("if", "match", "block"):
+            stmts.append(("expr", tl)); tl = None
+        self.depth += 1
+        def done(env_):
+            self.depth -= 1
+            try:
+                if tl is None:
+                    return rest(self.merge(outer, env_))
+                self.depth += 1
+                def kt(t, ty):
+                    self.depth -= 1
+                    try:
+                        return rest(self.merge(outer, env_))
+                    finally:
+                        self.depth += 1
+                r = self.tr(tl, env_, kt, True)
+                self.depth -= 1
+                return r
+            finally:
+                self.depth += 1
+        out = self.tr_stmts(stmts, 0, dict(env), done)
+        self.depth -= 1
+        return out
+
+    def stmt_expr(self, e, env, outer, rest):
+        if e[0] == "block":
+            return self.stmt_block(e, env, outer, rest)
+        if e[0] == "if":
+            def kc(tc, tyc):
+                self.want(tyc, "bool")
+                th = self.stmt_block(e[2], env, outer, rest)
+                el = rest(self.merge(outer, env)) if e[3] is None else self.stmt_expr(e[3], env, outer, rest)
+                return "if %s then %s else %s" % (tc, th, el)
+            return self.tr(e[1], env, kc)
+        if e[0] == "match":
+            return self.tr(e[1], env, lambda ts, tys: self.tr_match(ts, tys, e[2], env, None, True, stmt_rest=lambda env_: rest(self.merge(outer, env_))))
+        return self.tr(e, env, lambda t, ty: rest(self.merge(outer, env)), True)
 
     def diverges(self, blk):
         last = blk[2] if blk[2] is not None else (blk[1][-1][1] if blk[1] and blk[1][-1][0] == "expr" else None)
@@ -958,6 +1234,7 @@ class FnTr:
         if p[0] == "pid":
             v = self.fresh(p[1])
             env = dict(env); env[p[1]] = (v, ty, self.depth)
+            env.pop(("#", p[1], self.depth), None)
             return "let %s := %s in %s" % (v, t, rest(env))
         if p[0] == "ptuple" and len(p[1]) == 2 and isinstance(ty, tuple) and ty[0] == "tuple" and len(ty[1]) == 2:
             return self.bind_pattern(p[1][0], "fst %s" % atom(t), ty[1][0], env,
@@ -969,6 +1246,19 @@ class FnTr:
             return done(env)
         s = stmts[i]
         rest = lambda env_: self.tr_stmts(stmts, i + 1, env_, done, pure)
+        if s[0] == "let" and s[3][0] == "un" and s[3][1] == "&mut":
+            tgt = s[3][2]
+            if not (tgt[0] == "index" and tgt[1][0] == "path" and tgt[1][1][0] in self.mut_arrays and tgt[2] == ("path", [self.index_var])
+                    and s[1][0] == "pid" and tgt[1][1][0] not in self.elem_alias and env[tgt[1][1][0]][0] == self.abstract[tgt[1][1][0]][0]):
+                raise Unsupported("`&mut` borrow other than `let x = &mut ARRAY[loop counter];` of a `&mut [T; D]` parameter")
+            arr = tgt[1][1][0]
+            ev, ety = self.abstract[arr]
+            if arr not in self.abs_used:
+                self.abs_used.append(arr)
+            v = self.fresh(s[1][1])
+            env2 = dict(env); env2[s[1][1]] = (v, ety, self.depth); env2.pop(("#", s[1][1], self.depth), None)
+            self.elem_alias[arr] = (s[1][1], self.depth, v, ety)
+            return "let %s := %s in %s" % (v, ev, rest(env2))
         if s[0] == "let":
             def kl(t, ty):
                 if s[2] is not None:
@@ -980,29 +1270,31 @@ class FnTr:
             if pure:
                 raise Impure()
             lhs, op, rhs = s[1], s[2], s[3]
+            if lhs[0] == "un" and lhs[1] == "*" and lhs[2][0] == "path":
+                lhs = lhs[2]
             if op != "=":
                 rhs = ("bin", op[0], lhs, rhs)
             if lhs[0] == "path" and len(lhs[1]) == 1 and lhs[1][0] in env:
                 n = lhs[1][0]
-                if env[n][2] != self.depth:
-                    raise Unsupported("assignment to `%s` from inside a nested block (not straight-line)" % n)
+                if env[n][2] < self.thread_base or env[n][0] == "?":
+                    raise Unsupported("assignment to `%s` from inside a block that is used as a value" % n)
                 def ka(t, ty):
                     self.want(ty, env[n][1])
                     v = self.fresh(n)
-                    e2 = dict(env); e2[n] = (v, env[n][1], env[n][2])
+                    e2 = dict(env); e2[n] = (v, env[n][1], env[n][2]); e2[("#", n, env[n][2])] = e2[n]
                     return "let %s := %s in %s" % (v, t, rest(e2))
                 return self.tr(rhs, env, ka)
             if lhs[0] == "field" and lhs[1] == ("path", ["self"]) and "self" in env and self.selfkind == "mut":
                 sv, sty, sd = env["self"]
-                if sd != self.depth or sty[0] != "struct":
-                    raise Unsupported("assignment to a field of self from inside a nested block")
+                if sd < self.thread_base or sty[0] != "struct":
+                    raise Unsupported("assignment to a field of self from inside a block that is used as a value")
                 fields = STRUCTS[sty[1]]["fields"]
-                if lhs[2] not in [f for f, _, _ in fields] or STRUCTS[sty[1]]["ignored"]:
+                if lhs[2] not in [f for f, _, _ in fields]:
                     raise Unsupported("assignment to self.%s" % lhs[2])
                 def kf(t, ty):
                     self.want(ty, "usize")
                     v = self.fresh("self")
-                    e2 = dict(env); e2["self"] = (v, sty, sd)
+                    e2 = dict(env); e2["self"] = (v, sty, sd); e2[("#", "self", sd)] = e2["self"]
                     args = " ".join(atom(t) if f == lhs[2] else "(%s %s)" % (acc, sv) for f, acc, _ in fields)
                     return "let %s := %s %s in %s" % (v, STRUCTS[sty[1]]["ctor"], args, rest(e2))
                 return self.tr(rhs, env, kf)
@@ -1011,11 +1303,29 @@ class FnTr:
             e = s[1]
             if pure:
                 raise Impure()
-            if e[0] == "if" and e[3] is None:
-                if not self.diverges(e[2]):
-                    raise Unsupported("`if` without `else` whose block does not end in return / continue")
-                return self.tr(e[1], env, lambda tc, tyc: self.want(tyc, "bool") or "if %s then %s else %s" % (
-                    tc, self.tr_block(e[2], env, lambda t, ty: "Ok tt"), rest(env)))
+            if e[0] == "mcall" and e[1][0] == "path" and len(e[1][1]) == 1 and e[1][1][0] in env \
+               and isinstance(env[e[1][1][0]][1], tuple) and env[e[1][1][0]][1][0] == "struct" and e[1][1][0] != "self":
+                n = e[1][1][0]
+                sty = env[n][1]
+                cname, cret, cn = self.u.callee(sty[1], e[2])
+                owner_unit = self.u if cname in self.u.mut_methods else None
+                for ou in getattr(self.u, "others", {}).values():
+                    if cname in ou.mut_methods:
+                        owner_unit = ou
+                if owner_unit is not None:
+                    if env[n][2] < self.thread_base:
+                        raise Unsupported("`%s.%s(..)` (a &mut self method) from inside a block that is used as a value" % (n, e[2]))
+                    if cn != len(e[3]) + 1:
+                        raise Unsupported("call of %s with %d arguments" % (cname, len(e[3])))
+                    def kmm(ts, tys):
+                        v = self.fresh(n)
+                        e2 = dict(env); e2[n] = (v, sty, env[n][2]); e2[("#", n, env[n][2])] = e2[n]
+                        return "obind (%s md %s %s) (fun %s => %s)" % (cname, env[n][0], " ".join(atom(x) for x in ts), v, rest(e2))
+                    return self.tr_list(e[3], env, kmm)
+            if e[0] == "assert":
+                return self.tr(e[1], env, lambda tc, tyc: self.want(tyc, "bool") or "if %s then %s else Panic" % (tc, rest(env)))
+            if e[0] in ("if", "match", "block"):
+                return self.stmt_expr(e, env, env, rest)
             # any other expression statement: its value is dropped, the rest follows in every
             # branch that falls through
             return self.tr(e, env, lambda t, ty: rest(env), True)
@@ -1025,6 +1335,8 @@ class FnTr:
 
     # ---- leaves
     def leaf_return(self, t, ty):
+        if self.closure_state is not None:
+            raise Unsupported("`return` inside a state-passing closure")
         if self.flow is not None:
             return "Ok (Return %s)" % atom(t)
         return "Ok %s" % atom(t)
@@ -1037,6 +1349,13 @@ class FnTr:
         return "Ok (Next %s)" % self.state_tuple(env)
 
     def body_end(self, env, t, ty):
+        if self.for_mut_end is not None:
+            return self.for_mut_end(env)
+        if self.closure_state is not None:
+            vs = [env[n][0] for n in self.closure_state]
+            st = "tt" if not vs else vs[0] if len(vs) == 1 else "(%s)" % ", ".join(vs)
+            self.closure_ret = ty
+            return "Ok (%s, %s)" % (t if t is not None else "tt", st)
         if self.flow is not None:
             return self.leaf_next(env)
         if self.selfkind == "mut" and self.ret_ty == "unit":
@@ -1053,15 +1372,19 @@ class Impure(Exception):
 # ------------------------------------------------------------------ one source file
 
 class FileUnit:
-    def __init__(self, repo, rel):
+    def __init__(self, repo, rel, text=None):
+        """text: the source itself (tools/test_gen_arith.py); struct declarations are then looked
+        up in the same text"""
         self.rel, self.repo = rel, repo
-        self.toks = tokenize(open(os.path.join(repo, rel)).read())
+        self.from_text = text is not None
+        self.toks = tokenize(open(os.path.join(repo, rel)).read() if text is None else text)
         self.match = brace_map(self.toks)
         self.aliases = {}
         for i, t in enumerate(self.toks):          # type Row = usize;
             if t.text == "type" and t.kind == "id" and i + 4 < len(self.toks) and self.toks[i + 2].text == "=" \
                and self.toks[i + 3].text == "usize" and self.toks[i + 4].text == ";":
                 self.aliases[self.toks[i + 1].text] = "usize"
+        self.mut_methods = set()   # generated names of `&mut self` methods without a result
         self.defs = []             # (coq name, text) in dependency order
         self.done = {}             # (owner, fn) -> (coq name, ret type, arity incl. self)
         self.checked = set()
@@ -1072,7 +1395,7 @@ class FileUnit:
         fields (in order, all usize) plus the ignored ones"""
         if name in self.checked:
             return
-        if STRUCTS[name]["decl"] != self.rel:
+        if STRUCTS[name]["decl"] != self.rel and not self.from_text:
             FileUnit(self.repo, STRUCTS[name]["decl"]).check_struct(name)
             self.checked.add(name)
             return
@@ -1097,13 +1420,131 @@ class FileUnit:
                     fields.append((f, p.ty())); p.accept(",")
                 cfg = STRUCTS[name]
                 got = [(f, self.aliases.get(ty[1], ty[1]) if ty[0] == "named" else None) for f, ty in fields if f not in cfg["ignored"]]
-                want = [(f, fty) for f, _, fty in cfg["fields"]]
+                want = [(f, fty if isinstance(fty, str) else fty[1]) for f, _, fty in cfg["fields"]]
                 if got != want or sorted(f for f, _ in fields if f in cfg["ignored"]) != sorted(cfg["ignored"]):
                     raise Unsupported("struct %s now has fields %s; the translator is configured for %s (+ ignored %s)"
                                       % (name, [f for f, _ in fields], want, cfg["ignored"]))
                 self.checked.add(name)
                 return
         raise Unsupported("struct %s is not declared in %s" % (name, self.rel))
+
+    def other_unit(self, rel):
+        if rel == self.rel or self.from_text:
+            return self
+        others = getattr(self, "others", None)
+        if others is None:
+            others = self.others = {}
+        if rel not in others:
+            others[rel] = FileUnit(self.repo, rel)
+            others[rel].others = others
+        return others[rel]
+
+    def check_enum(self, name):
+        """the declaration `enum name { .. }` must have exactly the configured variants, in order,
+        with the configured field kinds"""
+        u = self.other_unit(ENUMS[name]["decl"])
+        if ("enum", name) in u.checked:
+            return
+        toks = u.toks
+        for i, t in enumerate(toks):
+            if t.text == "enum" and t.kind == "id" and toks[i + 1].text == name and toks[i + 2].text == "{":
+                p = Parser(toks, i + 3)
+                got = []
+                while not p.accept("}"):
+                    if p.peek() == "#":
+                        raise Unsupported("attribute on a variant of enum %s" % name)
+                    v = p.ident()
+                    kinds = []
+                    if p.accept("("):
+                        while not p.accept(")"):
+                            ty = p.ty()
+                            if ty == ("named", "usize", []) or (ty[0] == "named" and u.aliases.get(ty[1]) == "usize"):
+                                kinds.append("usize")
+                            elif ty == ("named", "Range", [("named", "usize", [])]):
+                                kinds.append("range")
+                            elif ty == ("named", "Box", [("named", name, [])]):
+                                kinds.append("rec")
+                            else:
+                                kinds.append(repr(ty))
+                            p.accept(",")
+                    elif p.peek() == "{":
+                        raise Unsupported("struct-like variant %s::%s" % (name, v))
+                    got.append((v, kinds)); p.accept(",")
+                want = [(v, ks) for v, ks, _ in ENUMS[name]["variants"]]
+                if got != want:
+                    raise Unsupported("enum %s now has the variants %s; the translator is configured for %s" % (name, got, want))
+                u.checked.add(("enum", name))
+                return
+        raise Unsupported("enum %s is not declared in %s" % (name, u.rel))
+
+    def enum_fn(self, owner, name):
+        """a `&self` method of an enum whose body is exactly `match self { Variant(..) => e, .. }`
+        with panic-free arms: a (pure) Coq Fixpoint over the hand-written inductive type"""
+        u = self.other_unit(ENUMS[owner]["decl"])
+        key = ("enumfn", owner, name)
+        if key in u.done:
+            if u.done[key] is None:
+                raise Unsupported("%s::%s is called before its definition is complete" % (owner, name))
+            return u.done[key]
+        u.check_enum(owner)
+        fn = u.locate_inherent(owner, name)
+        coq = "gen_%s_%s" % (owner, name)
+        tr = FnTr(u, None)
+        tr.selfkind, tr.ret_ty = "ref", None
+        tr.used.add(coq)
+        if fn["selfkind"] != "ref":
+            raise Unsupported("%s::%s does not take &self" % (owner, name))
+        vself = tr.fresh("self")
+        env, params = {}, ["(%s : %s)" % (vself, ENUMS[owner]["coq"])]
+        for p, t in fn["params"]:
+            ty = tr.ty(t)
+            if p[0] != "pid" or ty != "usize":
+                raise Unsupported("parameters of an enum method must be usize")
+            v = tr.fresh(p[1]); env[p[1]] = (v, ty, 0); params.append("(%s : N)" % v)
+        ret = tr.ty(fn["ret"])
+        if ret not in ("bool", "usize"):
+            raise Unsupported("an enum method must return bool or usize")
+        body = fn["body"]
+        if body[1] or body[2] is None or body[2][0] != "match" or body[2][1] != ("path", ["self"]):
+            raise Unsupported("body is not exactly `match self { .. }`")
+        # the recursive calls see the finished signature
+        u.done[key] = (coq, ret, len(params))
+        arms_by_variant = {}
+        for pat, e in body[2][2]:
+            if pat[0] != "pctor":
+                raise Unsupported("arm pattern %r (every variant must have its own arm)" % (pat,))
+            arms_by_variant.setdefault(pat[1], []).append((pat, e))
+        lines = []
+        for v, kinds, ctor in ENUMS[owner]["variants"]:
+            if len(arms_by_variant.get(v, [])) != 1:
+                raise Unsupported("variant %s::%s must have exactly one arm" % (owner, v))
+            pat, e = arms_by_variant.pop(v)[0]
+            if len(pat[2]) != len(kinds) or any(x[0] not in ("pid", "pwild") for x in pat[2]):
+                raise Unsupported("arm pattern of %s::%s" % (owner, v))
+            env2, cvars, lets = dict(env), [], ""
+            for x, kind in zip(pat[2], kinds):
+                base = x[1] if x[0] == "pid" else "tmp"
+                if kind == "range":
+                    a, b = tr.fresh(base + "_start"), tr.fresh(base + "_end")
+                    cvars += [a, b]
+                    if x[0] == "pid":
+                        w = tr.fresh(base); env2[x[1]] = (w, "range", 1); lets += "let %s := (%s, %s) in " % (w, a, b)
+                else:
+                    w = tr.fresh(base); cvars.append(w)
+                    if x[0] == "pid":
+                        env2[x[1]] = (w, "usize" if kind == "usize" else ("enum", owner), 1)
+            try:
+                t_, ty_ = tr.pure(e, env2)
+            except Impure:
+                raise Unsupported("the arm of %s::%s can panic" % (owner, v))
+            tr.want(ty_, ret)
+            lines.append("  | %s => %s%s" % (" ".join([ctor] + cvars), lets, t_))
+        if arms_by_variant:
+            raise Unsupported("arms for unknown variants %s" % sorted(arms_by_variant))
+        text = "Fixpoint %s %s {struct %s} : %s :=\n  match %s with\n%s\n  end." % (
+            coq, " ".join(params), vself, tr.coq_ty(ret), vself, "\n".join(lines))
+        u.defs.append((coq, text))
+        return u.done[key]
 
     def locate(self, context, name):
         i = find_fn(self.toks, self.match, name, context)
@@ -1119,7 +1560,50 @@ class FileUnit:
                     sigs.append(sig)
         return sigs
 
+    def free_fn(self, rel, kind, name, coq):
+        """makes sure the free function `name` of file rel (a target itself) is translated; its
+        definitions are emitted with that file's unit"""
+        if self.from_text:
+            u = self
+        else:
+            others = getattr(self, "others", None)
+            if others is None:
+                others = self.others = {}
+            if rel == self.rel:
+                u = self
+            else:
+                if rel not in others:
+                    others[rel] = FileUnit(self.repo, rel)
+                    others[rel].others = others
+                u = others[rel]
+        body = coq + "_body" if kind == "for" else coq
+        if any(c == coq for c, _ in u.defs):
+            return
+        if ("free", name) in u.done:
+            raise Unsupported("recursive call of %s" % name)
+        u.done[("free", name)] = None
+        translate_target(u, kind, None, name, body)
+
+    def locate_inherent(self, owner, name):
+        last = None
+        for ctx in self.inherent_context(owner):
+            try:
+                return self.locate(ctx, name)
+            except Unsupported as e:
+                last = e
+        raise Unsupported("no unique inherent fn %s::%s (%s)" % (owner, name, last))
+
     def callee(self, owner, name):
+        if owner in STRUCTS and STRUCTS[owner]["decl"] != self.rel and not self.from_text:
+            # the struct's impl lives in another file: translated there (and emitted with it)
+            others = getattr(self, "others", None)
+            if others is None:
+                others = self.others = {}
+            rel = STRUCTS[owner]["decl"]
+            if rel not in others:
+                others[rel] = FileUnit(self.repo, rel)
+                others[rel].others = others
+            return others[rel].callee(owner, name)
         key = (owner, name)
         if key in self.done:
             if self.done[key] is None:
@@ -1161,6 +1645,10 @@ class FileUnit:
             v = tr.fresh(p[1])
             env[p[1]] = (v, ty, 0)
             params.append("(%s : %s)" % (v, tr.coq_ty(ty)))
+            inner = t
+            if inner[0] == "array" and inner[2] in fn.get("consts", []) and inner[2] not in env:
+                # the const generic length as a value: the length of an array that has it
+                env[inner[2]] = ("(N.of_nat (length %s))" % v, "usize", 0)
         ret = tr.ty(fn["ret"])
         tr.ret_ty = ret
         if tr.selfkind == "mut":
@@ -1170,6 +1658,8 @@ class FileUnit:
         body = tr.tr_block(fn["body"], env, None, top=True)
         text = "Definition %s (md : mode) %s : outcome %s :=\n  %s." % (coq, " ".join(params), tr.coq_ty(out_ty), body)
         self.defs.append((coq, text))
+        if tr.selfkind == "mut":
+            self.mut_methods.add(coq)      # the result is the updated self
         return (coq, out_ty, len(params))
 
     # ---- a function whose body is exactly ARRAY.iter().try_fold(INIT, |acc, x| EXPR)
@@ -1288,6 +1778,18 @@ class FileUnit:
         self.defs.append((coq, text))
         out["arrays"] = [(n, tr.coq_ty(tr.abstract[n][1])) for n, _ in arrays if n in tr.abs_used]
         out["plain"] = plain
+        if which == "closure" and coq.endswith("_elem") and out["arrays"]:
+            # the frame: std::array::from_fn evaluates the closure for d = 0, 1, .. in order; the
+            # arrays it indexes are traversed in lockstep (all have the same const length D)
+            xty = " * ".join(t for _, t in out["arrays"])
+            names = [tr.abstract[n][0] for n, _ in out["arrays"]]
+            xpat = names[0] if len(names) == 1 else "'(%s)" % ", ".join(names)
+            plain_names = " ".join(re.match(r"\((\S+)", p).group(1) for p in plain)
+            whole = coq[:-len("_elem")]
+            self.defs.append((whole, "Definition %s (md : mode)%s (xs : list (%s)) : outcome (list %s) :=\n"
+                              "  gen_map_m (fun (x : %s) => let %s := x in %s md %s) xs."
+                              % (whole, "".join(" " + p_ for p_ in plain), xty, tr.coq_ty(ret[1]), xty, xpat, coq,
+                                 " ".join(([plain_names] if plain_names else []) + names))))
         if which == "for":
             # the frame: initial state, what follows the loop, and the loop itself over the
             # arrays traversed in lockstep (all have the same const length D)
@@ -1311,6 +1813,353 @@ class FileUnit:
                         " ".join(([plain_names] if plain_names else []) + svars + names), sty, spat, fin, atom(init)))
             self.defs.append((whole, text2))
         return out
+
+
+    # ---- a loop that writes arrays:  let mut LOCAL = *SOURCE;
+    #          for (d, PATTERN) in LOCAL.iter_mut().enumerate() { .. ARRAY[d] .. *x = e .. }  LOCAL
+    #      one iteration as a function (element of SOURCE, elements of the other arrays) -> (new
+    #      element of LOCAL, new elements of the `&mut` arrays); the frame maps it over the arrays
+    #      traversed in lockstep
+    def translate_for_mut(self, fn, coq):
+        tr = FnTr(self, None)
+        tr.selfkind, tr.ret_ty = None, None
+        if fn["selfkind"]:
+            raise Unsupported("loop extraction from a method")
+        env, arrays, mutable = {}, [], []
+        for p, t in fn["params"]:
+            if p[0] != "pid":
+                raise Unsupported("parameter pattern %r" % (p,))
+            ty = tr.ty(t)
+            if not (isinstance(ty, tuple) and ty[0] == "array"):
+                raise Unsupported("only array parameters are supported in a loop that writes arrays")
+            arrays.append((p[1], ty[1]))
+        stmts, tail = fn["body"][1], fn["body"][2]
+        if len(stmts) != 2 or stmts[0][0] != "let" or stmts[0][1][0] != "pid" or stmts[1][0] != "for" or tail is None or tail != ("path", [stmts[0][1][1]]):
+            raise Unsupported("body is not exactly `let mut LOCAL = *SOURCE; for .. in LOCAL.iter_mut().enumerate() {..} LOCAL`")
+        local, init = stmts[0][1][1], stmts[0][3]
+        if init[0] == "un" and init[1] == "*":
+            init = init[2]
+        if init[0] != "path" or len(init[1]) != 1 or init[1][0] not in [a for a, _ in arrays]:
+            raise Unsupported("the local array is not a copy of an array parameter")
+        source = init[1][0]
+        loop = stmts[1]
+        pat, it = loop[1], loop[2]
+        if not (pat[0] == "ptuple" and len(pat[1]) == 2 and pat[1][0][0] == "pid" and it[0] == "mcall" and it[2] == "enumerate"
+                and it[1][0] == "mcall" and it[1][2] == "iter_mut" and it[1][1] == ("path", [local])):
+            raise Unsupported("loop header is not `for (d, pat) in LOCAL.iter_mut().enumerate()`")
+        tr.index_var = pat[1][0][1]
+        env[tr.index_var] = ("?", "usize", 0)
+        # which parameters are `&mut [..]` (the parser keeps `&mut` only in expressions: re-read the header)
+        i = find_fn(self.toks, self.match, fn["name"], None)
+        j = i
+        while self.toks[j].text != "{":
+            j += 1
+        hdr = self.toks[i:j]
+        for k_, t_ in enumerate(hdr):
+            if t_.text == ":" and hdr[k_ - 1].kind == "id" and k_ + 2 < len(hdr) and hdr[k_ + 1].text == "&" and hdr[k_ + 2].text == "mut":
+                mutable.append(hdr[k_ - 1].text)
+        tr.mut_arrays = [a for a, _ in arrays if a in mutable and a != source]
+        for n, ety in arrays:
+            v = tr.fresh(n + "_" + tr.index_var)
+            tr.abstract[n] = (v, ety)
+            env[n] = (v, ("array", ety), 0)
+        sv, sety = tr.abstract[source]
+        tr.abs_used.append(source)
+        tr.depth = 1
+        epat = pat[1][1]
+        comps = []         # (rust name or None, projection of the original element)
+        if epat[0] == "pid":
+            comps = [(epat[1], sv, sety)]
+        elif epat[0] == "ptuple" and isinstance(sety, tuple) and sety[0] == "tuple" and len(epat[1]) == 2 == len(sety[1]):
+            for c_, proj, cty in zip(epat[1], ("fst", "snd"), sety[1]):
+                if c_[0] == "pid":
+                    comps.append((c_[1], "%s %s" % (proj, sv), cty))
+                elif c_[0] == "pwild":
+                    comps.append((None, "%s %s" % (proj, sv), cty))
+                else:
+                    raise Unsupported("loop pattern %r" % (epat,))
+        else:
+            raise Unsupported("loop pattern %r" % (epat,))
+        lets = ""
+        for n, proj, cty in comps:
+            if n is not None:
+                v = tr.fresh(n); env[n] = (v, cty, 1)
+                lets += "let %s := %s in " % (v, proj)
+        def end(env_):
+            vals = [env_.get(("#", n, 1), env_[n])[0] if n is not None else proj for n, proj, _ in comps]
+            new_elem = vals[0] if len(vals) == 1 else "(%s)" % ", ".join(vals)
+            outs = [new_elem]
+            for a in tr.mut_arrays:
+                if a in tr.elem_alias:
+                    an, ad, av, aty = tr.elem_alias[a]
+                    outs.append(env_.get(("#", an, ad), (av,))[0])
+                else:
+                    outs.append(tr.abstract[a][0])
+            return "Ok (%s)" % ", ".join(outs) if len(outs) > 1 else "Ok %s" % atom(outs[0])
+        tr.for_mut_end = end
+        body = lets + tr.tr_block(loop[3], env, None, top=True)
+        used = [n for n, _ in arrays if n in tr.abs_used]
+        for a in tr.mut_arrays:
+            if a not in used:
+                used.append(a)
+        aparams = ["(%s : %s)" % (tr.abstract[n][0], tr.coq_ty(tr.abstract[n][1])) for n in used]
+        out_ty = " * ".join([tr.coq_ty(sety)] + [tr.coq_ty(tr.abstract[a][1]) for a in tr.mut_arrays])
+        self.defs.append((coq, "Definition %s (md : mode) %s : outcome (%s) :=\n  %s." % (coq, " ".join(aparams), out_ty, body)))
+        whole = coq[:-len("_body")] if coq.endswith("_body") else coq + "_loop"
+        xty = " * ".join(tr.coq_ty(tr.abstract[n][1]) for n in used)
+        names = [tr.abstract[n][0] for n in used]
+        xpat = names[0] if len(names) == 1 else "'(%s)" % ", ".join(names)
+        self.defs.append((whole, "Definition %s (md : mode) (xs : list (%s)) : outcome (list (%s)) :=\n"
+                          "  gen_map_m (fun (x : %s) => let %s := x in %s md %s) xs." % (whole, xty, out_ty, xty, xpat, coq, " ".join(names))))
+
+    # ---- std::array::from_fn(|d| ..) whose closure uses the counter as a value and the arrays
+    #      as whole iterators: the closure as a function of d, and the frame over d = 0 .. D-1
+    def translate_from_fn(self, fn, coq):
+        tr = FnTr(self, None)
+        tr.selfkind, tr.ret_ty = None, None
+        if fn["selfkind"]:
+            raise Unsupported("from_fn extraction from a method")
+        stmts, tail = fn["body"][1], fn["body"][2]
+        if stmts or tail is None or tail[0] != "call" or tail[1] != ("path", ["std", "array", "from_fn"]) \
+           or len(tail[2]) != 1 or tail[2][0][0] != "closure" or len(tail[2][0][1]) != 1 or tail[2][0][1][0][0] != "pid":
+            raise Unsupported("body is not exactly std::array::from_fn(|d| ...)")
+        if fn["ret"][0] != "array":
+            raise Unsupported("from_fn in a function that does not return an array")
+        env, params, length_of = {}, [], None
+        for p, t in fn["params"]:
+            if p[0] != "pid":
+                raise Unsupported("parameter pattern %r" % (p,))
+            ty = tr.ty(t)
+            v = tr.fresh(p[1]); env[p[1]] = (v, ty, 0); params.append((v, tr.coq_ty(ty)))
+            inner = t
+            while inner[0] == "named" and False:
+                pass
+            if length_of is None and t[0] == "array" and t[2] == fn["ret"][2]:
+                length_of = v
+        if length_of is None:
+            raise Unsupported("no array parameter of the result's length %s" % fn["ret"][2])
+        ret = tr.ty(fn["ret"])
+        d = tail[2][0][1][0][1]
+        vd = tr.fresh(d)
+        env2 = dict(env); env2[d] = (vd, "usize", 0)
+        c = tail[2][0][2]
+        if c[0] == "block":
+            body = tr.tr_block(c, env2, None, top=True)
+        else:
+            body = tr.tr(c, env2, lambda t, ty: tr.want(ty, ret[1]) or "Ok %s" % atom(t), True)
+        elem = coq + "_elem"
+        ps = " ".join("(%s : %s)" % x for x in params)
+        self.defs.append((elem, "Definition %s (md : mode) %s (%s : N) : outcome %s :=\n  %s."
+                          % (elem, ps, vd, tr.coq_ty(ret[1]), body)))
+        self.defs.append((coq, "Definition %s (md : mode) %s : outcome (list %s) :=\n  gen_map_m (%s md %s) (gen_range 0 (N.of_nat (length %s)))."
+                          % (coq, ps, tr.coq_ty(ret[1]), elem, " ".join(v for v, _ in params), length_of)))
+
+    # ---- helpers for fragments of &mut self methods
+    def method_env(self, fn, owner, tr):
+        """parameters of a method: (env, [(coq name, coq type)])"""
+        env, params = {}, []
+        tr.selfkind = fn["selfkind"]
+        tr.ret_ty = None
+        if fn["selfkind"]:
+            if owner not in STRUCTS:
+                raise Unsupported("self of type %s" % owner)
+            self.check_struct(owner)
+            v = tr.fresh("self")
+            env["self"] = (v, ("struct", owner), 0)
+            params.append((v, STRUCTS[owner]["coq"], "self"))
+        for p, t in fn["params"]:
+            if p[0] != "pid":
+                raise Unsupported("parameter pattern %r" % (p,))
+            try:
+                ty = tr.ty(t)
+            except Unsupported:
+                continue               # a parameter of a type outside the subset: unusable
+            if ty == "position":
+                continue               # a stored value: not part of the index arithmetic
+            v = tr.fresh(p[1])
+            env[p[1]] = (v, ty, 0)
+            params.append((v, tr.coq_ty(ty), p[1]))
+        return env, params
+
+    def names_in(self, e, acc, assigned):
+        """identifiers used / assigned in an expression tree (syntactic)"""
+        if isinstance(e, tuple):
+            if e and e[0] == "path" and len(e[1]) == 1:
+                acc.append(e[1][0])
+            if e and e[0] == "assign" and e[1][0] == "path" and len(e[1][1]) == 1:
+                assigned.append(e[1][1][0])
+            for x in e:
+                self.names_in(x, acc, assigned)
+        elif isinstance(e, list):
+            for x in e:
+                self.names_in(x, acc, assigned)
+
+    def let_types(self, tr, stmts, env):
+        """types of the top-level `let x = e;` bindings among stmts (dry run; None = unknown)"""
+        out = {}
+        for s_ in stmts:
+            if s_[0] == "let" and s_[1][0] == "pid":
+                box = []
+                saved = (tr.n, set(tr.used), tr.depth, tr.thread_base)
+                try:
+                    tr.tr(s_[3], env, lambda t, ty: box.append(ty) or "Ok tt")
+                except (Unsupported, Impure):
+                    pass
+                tr.n, tr.used, tr.depth, tr.thread_base = saved
+                ty = tr.ty(s_[2]) if s_[2] is not None else (box[0] if box else None)
+                out[s_[1][1]] = (ty, s_[1][2])
+                if ty is not None:
+                    env = dict(env); env[s_[1][1]] = ("\0" + s_[1][1], ty, 0)
+        return out
+
+    # ---- the closure handed to self.data.retain(|_| ..) in a &mut self method: a state-passing
+    #      function of the captured variables; and (when the statements around it are in the
+    #      subset) the whole method as `which of the n stored values are kept, and the new self`
+    def translate_retain(self, fn, owner, coq):
+        stmts, tail = fn["body"][1], fn["body"][2]
+        if tail is not None:
+            stmts = stmts + [("expr", tail)]
+        def is_retain(s_):
+            return s_[0] == "expr" and s_[1][0] == "mcall" and s_[1][2] == "retain" and \
+                s_[1][1] == ("field", ("path", ["self"]), "data") and len(s_[1][3]) == 1 and s_[1][3][0][0] == "closure"
+        at = [i for i, s_ in enumerate(stmts) if is_retain(s_)]
+        if len(at) != 1:
+            raise Unsupported("expected exactly one self.data.retain(|_| ..) statement, found %d" % len(at))
+        clo = stmts[at[0]][1][3][0]
+        if len(clo[1]) != 1 or clo[1][0][0] != "pwild":
+            raise Unsupported("the retain closure must ignore its argument (|_|)")
+        tr = FnTr(self, owner)
+        tr.used.add(coq)
+        env0, params0 = self.method_env(fn, owner, tr)
+        pre = stmts[:at[0]]
+        lets = self.let_types(tr, pre, env0)
+        used, assigned = [], []
+        self.names_in(clo[2], used, assigned)
+        if "self" in used:
+            raise Unsupported("the retain closure uses self")
+        state = [n for n in lets if n in assigned]
+        for n in state:
+            if not lets[n][1] or lets[n][0] is None:
+                raise Unsupported("captured variable `%s` is assigned but not a typed `let mut`" % n)
+        for n in assigned:
+            if n not in lets and n in env0:
+                raise Unsupported("the closure assigns the parameter `%s`" % n)
+        caps = [(n, env0[n][1]) for n in [p_[2] for p_ in params0] if n in used and n != "self"] + \
+               [(n, lets[n][0]) for n in lets if n in used and n not in state]
+        env, cparams = {}, []
+        for n, ty in caps:
+            if ty is None:
+                raise Unsupported("captured variable `%s` has a type outside the subset" % n)
+            v = tr.fresh(n); env[n] = (v, ty, 0); cparams.append("(%s : %s)" % (v, tr.coq_ty(ty)))
+        for n in state:
+            v = tr.fresh(n); env[n] = (v, lets[n][0], 0); cparams.append("(%s : %s)" % (v, tr.coq_ty(lets[n][0])))
+        tr.selfkind = None
+        tr.closure_state = state
+        body = clo[2] if clo[2][0] == "block" else ("block", [], clo[2])
+        text = tr.tr_block(body, env, None, top=True)
+        if tr.closure_ret != "bool":
+            raise Unsupported("the retain closure returns %r" % (tr.closure_ret,))
+        sty = "unit" if not state else tr.coq_ty(lets[state[0]][0]) if len(state) == 1 else "(%s)" % " * ".join(tr.coq_ty(lets[n][0]) for n in state)
+        name = coq + "_retain"
+        self.defs.append((name, "Definition %s (md : mode) %s : outcome (bool * %s) :=\n  %s." % (name, " ".join(cparams), sty, text)))
+        # the frame
+        try:
+            f = FnTr(self, owner); f.used = set(tr.used)
+            fenv, fparams = self.method_env(fn, owner, f)
+            f.selfkind, f.ret_ty = fn["selfkind"], "unit"
+            if fn["selfkind"] != "mut" or fn["ret"] != ("unit",):
+                raise Unsupported("the frame is generated for `&mut self` methods without a result only")
+            vn = f.fresh("n")
+            def after(env_):
+                for n, _ in caps:
+                    if n not in env_:
+                        raise Unsupported("`%s` is not in scope at the retain call" % n)
+                svars = [f.fresh(n) for n in state]
+                spat = "_" if not svars else svars[0] if len(svars) == 1 else "'(%s)" % ", ".join(svars)
+                init = "tt" if not state else env_[state[0]][0] if len(state) == 1 else "(%s)" % ", ".join(env_[n][0] for n in state)
+                kept = f.fresh("kept")
+                post = f.tr_stmts(stmts[at[0] + 1:], 0, env_, lambda e_: "Ok (%s, %s)" % (kept, e_["self"][0]))
+                return "obind (gen_retain (fun (st : %s) => let %s := st in %s md %s) %s %s) (fun %s => %s)" % (
+                    sty, spat, name, " ".join([env_[n][0] for n, _ in caps] + svars), atom(init), vn, kept, post)
+            ftext = f.tr_stmts(pre, 0, fenv, after)
+            self.defs.append((coq, "Definition %s (md : mode) %s (%s : nat) : outcome (list bool * %s) :=\n  %s."
+                              % (coq, " ".join("(%s : %s)" % (v, t) for v, t, _ in fparams), vn, STRUCTS[owner]["coq"], ftext)))
+        except Unsupported as e:
+            self.defs.append((coq, "(* frame of %s not generated: %s *)" % (coq, e)))
+
+    # ---- the positions at which the single `for` loop of a method inserts into self.data:
+    #      POS of `self.data.insert(POS, VALUE)` as a function of the loop variable, and (when the
+    #      loop header and the statements around it are in the subset) the whole method as
+    #      `the list of insertion positions in order, and the new self`
+    def translate_positions(self, fn, owner, coq):
+        stmts, tail = fn["body"][1], fn["body"][2]
+        if tail is not None:
+            stmts = stmts + [("expr", tail)]
+        at = [i for i, s_ in enumerate(stmts) if s_[0] == "for"]
+        if len(at) != 1:
+            raise Unsupported("expected exactly one top-level for loop, found %d" % len(at))
+        loop = stmts[at[0]]
+        body = loop[3]
+        bst = body[1] + ([("expr", body[2])] if body[2] is not None else [])
+        if len(bst) != 1 or bst[0][0] != "expr" or bst[0][1][0] != "mcall" or bst[0][1][2] != "insert" \
+           or bst[0][1][1] != ("field", ("path", ["self"]), "data") or len(bst[0][1][3]) != 2:
+            raise Unsupported("the loop body is not exactly self.data.insert(POSITION, VALUE)")
+        pos = bst[0][1][3][0]
+        pat = loop[1]
+        if pat[0] == "pid":
+            var = pat[1]
+        elif pat[0] == "ptuple" and len(pat[1]) == 2 and pat[1][0][0] == "pid":
+            var = pat[1][0][1]         # for (counter, value) in <..>.enumerate()
+            it = loop[2]
+            if not (it[0] == "mcall" and it[2] == "enumerate"):
+                raise Unsupported("a pair pattern needs an .enumerate() loop")
+        else:
+            raise Unsupported("loop pattern %r" % (pat,))
+        tr = FnTr(self, owner)
+        tr.used.add(coq)
+        env0, params0 = self.method_env(fn, owner, tr)
+        lets = self.let_types(tr, stmts[:at[0]], env0)
+        used, assigned = [], []
+        self.names_in(pos, used, assigned)
+        env, ps = {}, []
+        for v, t, n in params0:
+            if n in used or n == "self":
+                env[n] = env0[n]; ps.append("(%s : %s)" % (v, t))
+        for n in lets:
+            if n in used:
+                if lets[n][0] is None:
+                    raise Unsupported("`%s` has a type outside the subset" % n)
+                v = tr.fresh(n); env[n] = (v, lets[n][0], 0); ps.append("(%s : %s)" % (v, tr.coq_ty(lets[n][0])))
+        vv = tr.fresh(var)
+        env[var] = (vv, "usize", 0)
+        tr.selfkind = "ref"
+        text = tr.tr(pos, env, lambda t, ty: tr.want(ty, "usize") or "Ok %s" % atom(t), True)
+        name = coq + "_position"
+        self.defs.append((name, "Definition %s (md : mode) %s (%s : N) : outcome N :=\n  %s." % (name, " ".join(ps), vv, text)))
+        try:
+            if any(n in used for n in lets):
+                raise Unsupported("the position uses a local variable")
+            f = FnTr(self, owner); f.used = set(tr.used)
+            fenv, fparams = self.method_env(fn, owner, f)
+            f.selfkind, f.ret_ty = fn["selfkind"], "unit"
+            if fn["selfkind"] != "mut" or fn["ret"] != ("unit",) or pat[0] != "pid":
+                raise Unsupported("the frame is generated for `&mut self` methods with a `for x in <range>` loop only")
+            it = loop[2]
+            if it[0] == "rangeexpr":
+                it = ("mcall", it, "into_iter", [])
+            def after(env_):
+                def kl(lt, ety):
+                    f.want(ety, "usize")
+                    got = f.fresh("positions")
+                    post = f.tr_stmts(stmts[at[0] + 1:], 0, env_, lambda e_: "Ok (%s, %s)" % (got, e_["self"][0]))
+                    return "obind (gen_map_m (%s md %s) %s) (fun %s => %s)" % (
+                        name, " ".join(env_[n][0] for v, t, n in params0 if n in used or n == "self"), atom(lt), got, post)
+                return f.tr_iter(it, env_, kl)
+            ftext = f.tr_stmts(stmts[:at[0]], 0, fenv, after)
+            self.defs.append((coq, "Definition %s (md : mode) %s : outcome (list N * %s) :=\n  %s."
+                              % (coq, " ".join("(%s : %s)" % (v, t) for v, t, _ in fparams), STRUCTS[owner]["coq"], ftext)))
+        except Unsupported as e:
+            self.defs.append((coq, "(* frame of %s not generated: %s *)" % (coq, e)))
 
 
 # ------------------------------------------------------------------ numeric backend (from_usize)
@@ -1513,6 +2362,26 @@ TARGETS = [
     ("src/matrices/mod.rs", "fn", "Matrix", "_try_get_reference_mut", "gen_Matrix_try_get_reference_mut"),
     ("src/tensors/mod.rs", "for", None, "get_index_direct", "gen_get_index_direct_body"),
     ("src/tensors/mod.rs", "tryfold", ("impl", None, "InvalidShapeError<D>"), "checked_elements", "gen_checked_elements"),
+    # iterator chains and std::array::from_fn frames (under C01's / C10's theorems)
+    ("src/tensors/dimensions.rs", "fn", None, "elements", "gen_elements"),
+    ("src/tensors/mod.rs", "from_fn", None, "compute_strides", "gen_compute_strides"),
+    ("src/tensors/mod.rs", "for", None, "get_index_direct_unchecked", "gen_get_index_direct_unchecked_body"),
+    # ShapeIterator's exact remaining length: calls the three functions above (C09)
+    ("src/tensors/indexing.rs", "fn", None, "size_hint", "gen_size_hint"),
+    # loops that write arrays (C02 / C16: the shapes of TensorRange / TensorMask)
+    ("src/tensors/views/ranges.rs", "for_mut", None, "clip_range_shape", "gen_clip_range_shape_body"),
+    ("src/tensors/views/ranges.rs", "for_mut", None, "clip_masked_shape", "gen_clip_masked_shape_body"),
+    # the index arithmetic of the Matrix mutators (C11): the closure given to Vec::retain as a
+    # state-passing function, the positions handed to Vec::insert
+    ("src/matrices/slices.rs", "enumfn", "Slice", "accepts", "gen_Slice_accepts"),
+    ("src/matrices/slices.rs", "fn", ("impl", None, "Slice2D"), "accepts", "gen_Slice2D_accepts"),
+    ("src/matrices/mod.rs", "retain", "Matrix", "remove_row", "gen_Matrix_remove_row"),
+    ("src/matrices/mod.rs", "retain", "Matrix", "remove_column", "gen_Matrix_remove_column"),
+    ("src/matrices/mod.rs", "retain", "Matrix", "retain_mut", "gen_Matrix_retain_mut"),
+    ("src/matrices/mod.rs", "positions", "Matrix", "insert_row", "gen_Matrix_insert_row"),
+    ("src/matrices/mod.rs", "positions", "Matrix", "insert_row_with", "gen_Matrix_insert_row_with"),
+    ("src/matrices/mod.rs", "positions", "Matrix", "insert_column", "gen_Matrix_insert_column"),
+    ("src/matrices/mod.rs", "positions", "Matrix", "insert_column_with", "gen_Matrix_insert_column_with"),
 ]
 
 PREAMBLE = """(* GENERATED by tools/gen_arith.py from the Rust sources of %s — do not edit.
@@ -1522,6 +2391,7 @@ PREAMBLE = """(* GENERATED by tools/gen_arith.py from the Rust sources of %s —
    supported subset is absent (see the NOT TRANSLATED comment), so Proofs/GenArithP.v fails. *)
 From Coq Require Import List ZArith NArith Bool.
 From EasyML Require Import Base.Sx Model.U64 Model.Fallible.
+From EasyML Require Model.Matrix.
 Import ListNotations.
 Open Scope N_scope.
 
@@ -1537,6 +2407,28 @@ Fixpoint gen_for {R S X} (step : S -> X -> outcome (flow R S)) (finish : S -> ou
   match xs with
   | [] => finish s
   | x :: rest => obind (step s x) (fun f => match f with Return v => Ok v | Next s' => gen_for step finish s' rest end)
+  end.
+(* iterator chains over arrays / slices are lists; Iterator::product / sum are left folds of the
+   (overflow-checked or wrapping) machine operation; std::array::from_fn(|d| ..) evaluates the
+   closure for d = 0, 1, .. in order; Vec::retain calls its closure once per element in order *)
+Fixpoint gen_fold {A X} (step : A -> X -> outcome A) (acc : A) (xs : list X) : outcome A :=
+  match xs with
+  | [] => Ok acc
+  | x :: rest => obind (step acc x) (fun a => gen_fold step a rest)
+  end.
+Definition gen_product (md : mode) (xs : list N) : outcome N := gen_fold (u_mul md) 1 xs.
+Definition gen_sum (md : mode) (xs : list N) : outcome N := gen_fold (u_add md) 0 xs.
+Definition gen_range (a b : N) : list N := map (fun i => a + N.of_nat i) (seq 0 (N.to_nat (b - a))).
+Definition gen_enumerate {X} (xs : list X) : list (N * X) := combine (gen_range 0 (N.of_nat (length xs))) xs.
+Fixpoint gen_map_m {X Y} (f : X -> outcome Y) (xs : list X) : outcome (list Y) :=
+  match xs with
+  | [] => Ok []
+  | x :: rest => obind (f x) (fun y => obind (gen_map_m f rest) (fun ys => Ok (y :: ys)))
+  end.
+Fixpoint gen_retain {S} (step : S -> outcome (bool * S)) (s : S) (n : nat) : outcome (list bool) :=
+  match n with
+  | O => Ok []
+  | S n' => obind (step s) (fun r => obind (gen_retain step (snd r) n') (fun ks => Ok (fst r :: ks)))
   end.
 (* Iterator::try_fold over Option: stops at the first None *)
 Fixpoint gen_try_fold {A X} (step : A -> X -> outcome (option A)) (acc : A) (xs : list X) : outcome (option A) :=
@@ -1556,6 +2448,34 @@ Import ListNotations.
 """
 
 
+def translate_target(u, kind, ctx, name, coq):
+    """translate one target into u.defs (raises Unsupported)"""
+    if kind == "fn" and isinstance(ctx, str):
+        u.callee(ctx, name)
+    elif kind == "fn" and ctx is None:
+        u.translate_fn(u.locate(None, name), None, coq)
+    elif kind == "from_fn":
+        u.translate_from_fn(u.locate(ctx, name), coq)
+    elif kind == "for_mut":
+        u.translate_for_mut(u.locate(ctx, name), coq)
+    elif kind == "enumfn":
+        u.enum_fn(ctx, name)
+    elif kind == "retain":
+        u.translate_retain(u.locate_inherent(ctx, name), ctx, coq)
+    elif kind == "positions":
+        u.translate_positions(u.locate_inherent(ctx, name), ctx, coq)
+    elif kind == "fn":
+        owner = ctx[2]
+        if ctx[1] is None:
+            u.callee(owner, name)
+        else:
+            u.translate_fn(u.locate(ctx, name), owner, coq)
+    elif kind == "tryfold":
+        u.translate_tryfold(u.locate(ctx, name), coq)
+    else:
+        u.translate_body(u.locate(ctx, name), coq, kind)
+
+
 def generate(repo):
     units, blocks, errors = {}, [], []
     seen = set()
@@ -1564,26 +2484,19 @@ def generate(repo):
             if rel not in units:
                 units[rel] = FileUnit(repo, rel)
             u = units[rel]
+            u.others = units
             before = len(u.defs)
-            if kind == "fn" and isinstance(ctx, str):
-                u.callee(ctx, name)
-            elif kind == "fn":
-                owner = ctx[2]
-                key = (owner, name) if ctx[1] is None else None
-                if key is not None:
-                    u.callee(owner, name)
-                else:
-                    res = u.translate_fn(u.locate(ctx, name), owner, coq)
-            elif kind == "tryfold":
-                u.translate_tryfold(u.locate(ctx, name), coq)
-            else:
-                u.translate_body(u.locate(ctx, name), coq, kind)
-            for c, text in u.defs[before:]:
-                if c not in seen:
-                    seen.add(c)
-                    blocks.append("(* %s :: %s  [%s] *)\n%s" % (rel, c[4:], kind if c == coq else "callee / frame", text))
+            marks = {r: len(x.defs) for r, x in units.items()}
+            if not any(c == coq for c, _ in u.defs):      # (already translated as a callee of an earlier target)
+                translate_target(u, kind, ctx, name, coq)
+            for r, x in list(units.items()):
+                for c, text in x.defs[marks.get(r, 0):]:
+                    if c not in seen:
+                        seen.add(c)
+                        blocks.append("(* %s :: %s  [%s] *)\n%s" % (r, c[4:], kind if c == coq else "callee / frame", text))
         except Unsupported as e:
-            del u.defs[before:]
+            for r, x in units.items():
+                del x.defs[marks.get(r, 0):]
             errors.append((coq, "%s: %s" % (rel, e)))
             blocks.append("(* NOT TRANSLATED %s (%s, fn %s): %s *)" % (coq, rel, name, e))
         except (IndexError, KeyError, StopIteration, TypeError) as e:
@@ -1629,6 +2542,7 @@ ALT_FILES = {   # equivalence-proof target -> (generated file, proof files in bu
     "theories/Proofs/GenArithP.vo": ("Arith.v", ["Proofs/GenArithP.v"]),
     "theories/Proofs/GenArithViewsP.vo": ("Arith.v", ["Proofs/GenArithP.v", "Proofs/GenArithViewsP.v"]),
     "theories/Proofs/GenNumericP.vo": ("ArithNumeric.v", ["Proofs/GenNumericP.v"]),
+    "theories/Proofs/GenMatrixP.vo": ("Arith.v", ["Proofs/GenMatrixP.v"]),
 }
 ALT_MODULES = {"Gen.Arith": "Arith", "Gen.ArithNumeric": "ArithNumeric", "Proofs.GenArithP": "GenArithP"}
 
